@@ -472,6 +472,24 @@ def r_feature_relations(repo, rep, R='R6.5'):
               'TernaryFeature.unifies: %s' % detail)
 
 
+def shared_sites(repo, rep):
+    """rules that both grammars import from depccg/grammar/__init__.py are written once and registered twice: for the instance floor a
+    site in such a rule counts once per grammar that imports the rule (the count says how many registered rules were inspected)."""
+    extra = 0
+    shared = repo.module('depccg/grammar/__init__.py')
+    for rel in ('depccg/grammar/en.py', 'depccg/grammar/ja.py'):
+        tree = ast.parse(repo.text(rel))
+        names = {a.name for imp in ast.walk(tree) if isinstance(imp, ast.ImportFrom) and imp.module == 'depccg.grammar' for a in imp.names}
+        k = 0
+        for nm in sorted(names):
+            fn = shared.get(nm, required=False)
+            if isinstance(fn, ast.FunctionDef):
+                k += sum(1 for c in ast.walk(fn) if isinstance(c, ast.Call) and isinstance(c.func, ast.Name) and c.func.id == 'Unification')
+        extra += k
+    # every site was counted once already where it is written
+    return max(0, extra - sum(1 for c in ast.walk(shared.tree) if isinstance(c, ast.Call) and isinstance(c.func, ast.Name) and c.func.id == 'Unification'))
+
+
 def check(repo, rep, tier):
     rep.rule('R6.1', 'provider typestate of Unification (__call__: done-check first, mark used, answer == success; __getitem__: success checked before reading)')
     rep.rule('R6.2', 'client typestate at every Unification(...) site: local, asked once, read only after success, keys are pattern variables')
@@ -486,10 +504,11 @@ def check(repo, rep, tier):
     cm_ = repo.module('depccg/cat.py')
     c05.r_delimiters(cm_, rep, 'R6.1')
     c05.r_associativity(cm_, rep, 'R6.1')
-    files = ['depccg/grammar/en.py', 'depccg/grammar/ja.py']
+    files = ['depccg/grammar/en.py', 'depccg/grammar/ja.py', 'depccg/grammar/__init__.py']
     if tier == 'thorough':
         files = [f for f in repo.py_files('depccg') if not f.startswith(('depccg/allennlp', 'depccg/chainer'))]
     n = ru.r_client_typestate(repo, rep, files)
+    n += shared_sites(repo, rep)
     rep.floor('Unification(...) client sites', n, 16)
     r_scan(repo, rep)
     r_scan_deep(repo, rep)
